@@ -565,3 +565,58 @@ def active_graph_rule(repo: Repo, rep: Report) -> None:
                        "as the Update semantics prescribe" if ok else
                        "with %s the graph the DELETE/INSERT templates outside GRAPH are applied to is selected from the %s context; it must be %s" % (
                            tag, "/".join(cls), "the WITH graph" if withc else "the caller's dataset (real default graph)"), node=s)
+
+
+_run_base = run
+
+
+def run(repo: Repo, rep: Report) -> None:  # noqa: F811
+    _run_base(repo, rep)
+    up = repo.mod("rdflib.plugins.sparql.update")
+    alg = repo.mod("rdflib.plugins.sparql.algebra")
+    # ------------------------------------------------------------------ (k)
+    rep.rule("C10.k-solution-multiset-kept",
+             "the update evaluators materialise the WHERE solutions with list(...) / tuple(...) of the solution stream itself: the templates are instantiated once per SOLUTION "
+             "(blank nodes in an INSERT template are fresh per solution, so two identical solutions insert two blank nodes). set(), frozenset(), dict.fromkeys(), a set/dict "
+             "comprehension or sorted(set(...)) over the stream collapse equal solutions", floor=2)
+    for q in ("evalModify", "evalDeleteWhere"):
+        f = up.func(q)
+        streams = {norm(a.targets[0]) for a in own_nodes(f) if isinstance(a, ast.Assign) and isinstance(a.value, ast.Call) and norm(a.value.func) in ("evalPart", "evalBGP", "_join")}
+        for c in own_nodes(f):
+            if not isinstance(c, ast.Call) or not c.args:
+                continue
+            fn = norm(c.func)
+            over = norm(c.args[0])
+            if fn in ("list", "tuple") and over in streams:
+                rep.ob("C10.k-solution-multiset-kept", up, q, c, True, "multiplicity-preserving", node=c)
+            elif over in streams and fn in ("set", "frozenset", "dict.fromkeys", "OrderedDict.fromkeys", "sorted") or (
+                    fn in ("list", "tuple", "sorted") and isinstance(c.args[0], ast.Call) and norm(c.args[0].func) in ("set", "frozenset", "dict.fromkeys", "OrderedDict.fromkeys") and c.args[0].args and norm(c.args[0].args[0]) in streams):
+                if fn == "sorted" and over in streams:
+                    continue  # sorted(stream) keeps multiplicity
+                rep.ob("C10.k-solution-multiset-kept", up, q, c, False,
+                       "%s collapses equal solutions: a template with a blank node is instantiated once where the solution multiset has it twice (UNION branches, a sub-SELECT that projects the distinguishing variable away)" % norm(c)[:60], node=c)
+
+    # ------------------------------------------------------------------ (l)
+    rep.rule("C10.l-each-operation-under-its-own-prologue",
+             "translateUpdate folds the prologue that precedes operation i (PREFIX / BASE written between the operations of one request) and translates operation i in the same "
+             "iteration of one loop over the (prologue, operation) pairs: an operation is resolved against the declarations in force at its position, a later re-declaration of a "
+             "prefix must not rewrite the IRIs of earlier operations", floor=1)
+    tu = alg.func("translateUpdate")
+    tp = [c for c in own_nodes(tu) if isinstance(c, ast.Call) and norm(c.func) == "translatePrologue"]
+    t1 = [c for c in own_nodes(tu) if isinstance(c, ast.Call) and norm(c.func) in ("translateUpdate1", "translatePName") or (isinstance(c, ast.Call) and any("translatePName" in norm(a) for a in c.args) and norm(c.func) == "functools.partial")]
+    if not tp or not t1:
+        raise AnalysisError("translateUpdate: prologue folding / operation translation calls not found")
+
+    def loop_of(n):
+        for p_ in alg.parents(n):
+            if isinstance(p_, (ast.For, ast.While)):
+                return p_
+            if p_ is tu:
+                return None
+        return None
+    lp = {id(loop_of(c)) for c in tp}
+    lo = {id(loop_of(c)) for c in t1}
+    same = lp == lo and None not in {loop_of(c) for c in tp}
+    rep.ob("C10.l-each-operation-under-its-own-prologue", alg, "translateUpdate", "translatePrologue and the translation of the operation share one loop", same,
+           "per-operation prologue" if same else
+           "all prologues are folded before any operation is translated: `PREFIX v: <a> INSERT DATA { v:x ... } ; PREFIX v: <b> INSERT DATA { ... }` resolves the FIRST operation's v:x against <b>", node=tp[0])
